@@ -9,6 +9,9 @@ EXTENDS CssDecl, TLC, TLCExt, Json, IOUtils, SequencesExt
 VARIABLE l
 
 Tr == ndJsonDeserialize(IOEnv.TRACE_FILE)
+\* Trace_C18_known.cfg substitutes CalLenientWeek53 <- KnownOn: the same validation under the variant
+\* reading that describes the open finding F18 (used only to classify events already rejected)
+KnownOn == TRUE
 
 RECURSIVE SortedSeq(_)
 SortedSeq(S) == IF S = {} THEN <<>> ELSE <<Min(S)>> \o SortedSeq(S \ {Min(S)})
